@@ -143,7 +143,7 @@ def plan(seed, tier):
     per = 6
     for lo in range(1, 61, per):
         cases.append({"class": "nfeat_sweep", "lo": lo, "hi": min(60, lo + per - 1), "cost": 6})
-    n = 24 if tier == "quick" else 400
+    n = 24 if tier == "quick" else 2000
     cases += [{"class": "random", "index": i, "reps": 12, "cost": 4} for i in range(n)]
     cases += [{"class": "reject", "index": i, "reps": 12, "cost": 2} for i in range(max(4, n // 6))]
     return cases
